@@ -59,7 +59,7 @@ theorem binCount_cast (avg : Rat) (havg : 0 < avg) (r : Row) (hlen : r.s ≤ r.e
         then ((roundHalfEven (((r.e - r.s : Int) : Rat) / avg) : Int) : Rat) else 1) ∧ 1 ≤ binCount avg r := by
   have hq : 0 ≤ ((r.e - r.s : Int) : Rat) / avg :=
     div_nonneg (by exact_mod_cast (by omega : 0 ≤ r.e - r.s)) (le_of_lt havg)
-  have hnn := roundHalfEven_nonneg _ hq
+  have hnn := roundHalfEven_nonneg_sub _ hq
   unfold binCount
   simp only
   generalize roundHalfEven (((r.e - r.s : Int) : Rat) / avg) = z at hnn ⊢
